@@ -33,6 +33,15 @@ fn roundtrips<T: Zoo>(ctx: &mut Ctx, fields: &[Field], values: &[T], idx: usize,
         Out::Ok(back) => if back != values { fail(ctx, "roundtrip_changes_values", format!("marrow: {:?} came back as {:?}", values, back)); },
         Out::Err(e) => fail(ctx, "type_traced_schema_rejects_value", e), Out::Panic(p) => fail(ctx, "panic", p),
     }
+    // marrow, foreign layout: unions with their children in the reverse order must read back as the same values
+    if fields.iter().any(crate::foreign::has_union) {
+        match guarded(|| -> Result<Vec<T>, String> { let a = serde_arrow::to_marrow(fields, values).map_err(|e| format!("to_marrow: {}", e))?;
+                let rf: Vec<Field> = fields.iter().map(crate::foreign::rev_field).collect(); let ra: Vec<_> = a.iter().map(crate::foreign::rev_array).collect();
+                let v: Vec<_> = ra.iter().map(|x| x.as_view()).collect(); serde_arrow::from_marrow(&rf, &v).map_err(|e| format!("from_marrow (unions reversed): {}", e)) }) {
+            Out::Ok(back) => if back != values { fail(ctx, "foreign_layout_changes_values", format!("unions reversed: {:?} came back as {:?}", values, back)); },
+            Out::Err(e) => fail(ctx, "foreign_layout_rejected", e), Out::Panic(p) => fail(ctx, "panic", p),
+        }
+    }
     // arrow
     let af: Vec<arrow_schema::FieldRef> = match fields.iter().map(|f| arrow_schema::Field::try_from(f).map(std::sync::Arc::new)).collect::<Result<_, _>>() { Ok(v) => v, Err(e) => { fail(ctx, "arrow_fields", e.to_string()); return; } };
     match guarded(|| -> Result<Vec<T>, String> { let a = serde_arrow::to_arrow(&af, values).map_err(|e| format!("to_arrow: {}", e))?; serde_arrow::from_arrow(&af, &a).map_err(|e| format!("from_arrow: {}", e)) }) {
